@@ -508,3 +508,17 @@ register(Contract(
     prop=['C12']))
 REGISTRY['lsml:_BaseLSML._comparison_loss#body'] = REGISTRY.pop('lsml:_BaseLSML._comparison_loss')
 C.unit('C12', 'lsml:_BaseLSML._comparison_loss#body')
+
+
+# thin public wrappers: LSML.fit / SCML.fit delegate to _fit
+register(Contract(
+    'lsml:LSML.fit',
+    cases=[Case('noweights', {'self': est('LSML', lsml_hyper(Str('identity')), 'fresh'), 'quadruplets': Arr(3, dims=['n', 4, 'd']), 'weights': NoneT()})],
+    ensures={'returns-self': returns_self, 'components_-shape': lambda a, r: z3.And(comp(a).dim(0) == a.quadruplets.dim(2), comp(a).dim(1) == a.quadruplets.dim(2))},
+    raises=dict(FIT_RAISES), modifies={'components_', 'preprocessor_', 'n_features_in_', 'w_', 'n_iter_'}, prop=['C03', 'C17']))
+register(Contract(
+    'scml:SCML.fit',
+    cases=[Case('triplets', {'self': est('SCML', scml_hyper(Str('triplet_diffs'), NoneT()), 'fresh'), 'triplets': Arr(3, dims=['n', 3, 'd'])},
+                pre=lambda a: a.self.output_iter <= a.self.max_iter)],
+    ensures={'returns-self': returns_self, 'components_-shape': lambda a, r: z3.And(comp(a).dim(1) == a.triplets.dim(2), comp(a).dim(0) <= a.triplets.dim(2))},
+    raises=dict(FIT_RAISES), modifies={'components_', 'preprocessor_', 'n_features_in_', 'n_iter_'}, prop=['C03', 'C17']))
